@@ -16,12 +16,15 @@ from ..common import Check, log
 HEAPMC_OPS = 40
 
 
-def run_heapmc(variant, depth, first, lasso, heap):
+def run_heapmc(variant, depth, first, lasso, heap, limit=3000):
     out = build.build_variant(variant)
     e = build.env_for(variant)
     t0 = time.time()
-    p = subprocess.run([os.path.join(out, "harness", "heapmc"), str(depth), str(first), str(lasso), str(heap)], preexec_fn=common.die_with_parent,
-                       env=e, stdout=subprocess.PIPE, stderr=subprocess.STDOUT, timeout=3000)
+    try:
+        p = subprocess.run([os.path.join(out, "harness", "heapmc"), str(depth), str(first), str(lasso), str(heap)], preexec_fn=common.die_with_parent,
+                           env=e, stdout=subprocess.PIPE, stderr=subprocess.STDOUT, timeout=limit)
+    except subprocess.TimeoutExpired:
+        return {"timeout": True, "first": first, "heap": heap, "depth": depth, "stats": {}, "violations": [], "asan": False, "rc": None, "tail": "", "wall": time.time() - t0}
     txt = p.stdout.decode("utf-8", "replace")
     stats = {}
     m = re.search(r"^STATS (.*)$", txt, re.M)
@@ -58,9 +61,15 @@ def main(tier):
         plan += [("asan", 4, -1, 1, 1024 * 1024)]
     # heap sizes below SEXP_MINIMUM_HEAP_SIZE select the default size; every requested size must boot cleanly and stay well-formed
     plan += [("asan", 2, -1, 0, hb) for hb in (1, 4096, 8192, 16384, 36 * 1024, 40 * 1024, 65535, 65536, 65537, 100000)]
+    # every exploration gets the time that is left for part (a) (two thirds of the tier's budget); one that runs out of it is undecided
+    limit_a = max(120, int(chk.time_left() * 0.66))
     with ThreadPoolExecutor(common.NCPU) as ex:
-        results = list(ex.map(lambda a: run_heapmc(*a), plan))
+        results = list(ex.map(lambda a: run_heapmc(*a, limit=limit_a), plan))
     for r in results:
+        if r.get("timeout"):
+            chk.exhaustive = False
+            log("C10 (a): heapmc depth %s first op %s heap %s ran out of wall-clock time: undecided" % (r["depth"], r["first"], r["heap"]))
+            continue
         st = r["stats"]
         if not st or (r["rc"] not in (0, 1)) or r["asan"]:
             chk.violation({"op": "heapmc-crash", "first": r["first"], "heap": r["heap"]},
@@ -93,7 +102,9 @@ def main(tier):
 
     def run_prog(a):
         (name, files, pre, lang), sched = a
-        r = common.evalbatch("asan", files, preludes=pre, lang=lang, timeout=1200, cwd=common.REPO if not pre else None,
+        if chk.time_left() < 30:
+            return name, sched, None
+        r = common.evalbatch("asan", files, preludes=pre, lang=lang, timeout=max(60, min(1200, int(chk.time_left()))), cwd=common.REPO if not pre else None,
                              env={"VERIF_POISON": "1", "VERIF_HEAPCHECK": "1", "VERIF_GC": sched})
         return name, sched, r
 
@@ -104,6 +115,9 @@ def main(tier):
             work = [(p, ("nth:401" if p[0].endswith("-tests") else s)) for p, s in work]
         work.sort(key=lambda a: 0 if a[0][0] == "r7rs-tests" else 1)
         for name, sched, r in ex.map(run_prog, work):
+            if r is None:
+                chk.exhaustive = False
+                continue
             m = re.search(r"heapchecks=(\d+) heapcheck_fail=(\d+)(?: msg=(.*))?", r.out)
             if r.timed_out:
                 chk.exhaustive = False
@@ -126,6 +140,8 @@ def main(tier):
     log("C10 (b): %d collections checked" % heapchecks)
     # ---------------- (c) boundedness of whole-program churn
     for heap in ([None, "300k"] if quick else [None, "300k", "16M"]):
+        if chk.out_of_time():
+            break
         r = common.evalbatch("asan", [os.path.join(common.VERIF, "scheme", "heap", "churn.scm")], heap=heap, timeout=900,
                              env={"VERIF_POISON": "1", "VERIF_HEAPCHECK": "1"})
         m = re.search(r"^SIZES \((.*)\)$", r.out, re.M)
